@@ -3,10 +3,12 @@ import io, os, sys
 sys.path.insert(0, os.path.dirname(__file__))
 from _common import main
 
-BOUND = 'every residue of bytes-already-written mod 1012 in {0,1,2,505,506,1010,1011} reached by 2 chunkings (trailer pending and trailer written for residue 0) x every next write length 0..3040 (quick: step 1 around block edges +-3, else step 97; thorough: all) ; one-shot blocker for n in 0..3100; finalise via seek(0) and close()'
+BOUND = 'data that is itself all 0x40 / all 0x00 (one-shot and streaming, block-edge lengths); every residue of bytes-already-written mod 1012 in {0,1,2,505,506,1010,1011} reached by 2 chunkings (trailer pending and trailer written for residue 0) x every next write length 0..3040 (quick: step 1 around block edges +-3, else step 97; thorough: all) ; one-shot blocker for n in 0..3100; finalise via seek(0) and close()'
 
 
-def data(n, off=0):
+def data(n, off=0, fill=None):
+    if fill is not None:
+        return bytes([fill]) * n          # data that looks like fill (EBCDIC blanks) or like nothing (zeros)
     return bytes(((i + off) % 251) + 1 if ((i + off) % 251) + 1 != 0x40 else 0xFE for i in range(n))
 
 
@@ -25,6 +27,8 @@ def check_layout(out, written, what):
             what, len(written), next((i for i in range(min(len(payload), len(written))) if payload[i] != written[i]), min(len(payload), len(written))))
     if payload[len(written):].strip(b'\x40'):
         return 'fill: %s non-fill bytes after the written data' % what
+    if len(payload) < len(written):
+        return 'data: %s payload holds %d bytes, %d were written' % (what, len(payload), len(written))
     if len(payload) - len(written) > 1012:
         return 'fill: %s more than one all-fill block' % what
     return None
@@ -47,7 +51,7 @@ def oracle(inp):
     from cardutil.mciipm import Block1014, block_1014
     kind = inp.get('kind', 'stream')
     if kind == 'oneshot':
-        d = data(inp['n'])
+        d = data(inp['n'], fill=inp.get('fill'))
         fo = io.BytesIO()
         block_1014(io.BytesIO(d), fo)
         out = fo.getvalue()
@@ -69,7 +73,7 @@ def oracle(inp):
     b = Block1014(f)
     written = b''
     for c in chunks:
-        d = data(c, len(written))
+        d = data(c, len(written), fill=inp.get('fill'))
         b.write(d)
         written += d
     if inp.get('n') is not None and inp.get('chunks') is None and b.remaining_chars is not None and len(chunks) > 1:
@@ -92,6 +96,9 @@ def oracle(inp):
     fo = io.BytesIO()
     block_1014(io.BytesIO(written), fo)
     one = fo.getvalue()
+    r = check_layout(one, written, 'block_1014 of the same %d bytes' % len(written)) if written else None
+    if r:
+        return r
     if out[:len(one)] != one or len(out) - len(one) not in (0, 1014) or out[len(one):].strip(b'\x40'):
         return 'stream-vs-oneshot: streaming output (chunks=%s) differs from block_1014 output beyond a trailing all-fill block' % (chunks,)
     return None
@@ -105,6 +112,12 @@ def cases(tier, rng):
                 edges.add(e + d)
     for n in list(range(0, 3100, 1 if tier == 'thorough' else 53)) + sorted(edges):
         yield {'kind': 'oneshot', 'n': n}
+    for fill in (0x40, 0x00):
+        for n in (1, 2, 1011, 1012, 1013, 2023, 2024, 2025, 3036):
+            yield {'kind': 'oneshot', 'n': n, 'fill': fill}
+        for ch in ([1012], [1012, 1012], [5, 1007], [1012, 3], [2024, 1012], [1, 1, 1], [1014], [3000]):
+            yield {'kind': 'stream', 'chunks': ch, 'how': 'seek', 'fill': fill}
+            yield {'kind': 'stream', 'chunks': ch, 'how': 'close', 'fill': fill}
     prefixes = [[], [1], [2], [505], [506, 0], [1010], [1011], [1000, 11], [1012], [1011, 1], [2024], [1012, 1012], [2023, 1], [300, 300, 412]]
     lens = range(0, 3041) if tier == 'thorough' else sorted(edges | set(range(0, 3041, 97)))
     for p in prefixes:
